@@ -14,6 +14,7 @@
 #include <unistd.h>
 
 #include "cbor/internal/verif_hooks.h"
+#include "h_gen.h"
 #include "h_tree.h"
 
 static int opt_dedup, opt_noops, opt_suffix, opt_lean, opt_faults;
@@ -369,73 +370,10 @@ static void dfs(unsigned char* buf, size_t len, int depth, int maxdepth, int all
   }
 }
 
-/* random well-formed item into buf; returns length */
-static size_t gen_item(unsigned char* b, size_t cap, int depth);
-static size_t put_head(unsigned char* b, unsigned mt, uint64_t v, int forcew) {
-  int w = forcew >= 0 ? forcew : (v < 24 ? 0 : v < 256 ? 1 : v < 65536 ? 2 : v < 4294967296ull ? 4 : 8);
-  if (w == 0 && v >= 24) w = 1;
-  b[0] = (unsigned char)(mt << 5 | (w == 0 ? v : w == 1 ? 24 : w == 2 ? 25 : w == 4 ? 26 : 27));
-  for (int i = 0; i < w; i++) b[1 + i] = (unsigned char)(v >> (8 * (w - 1 - i)));
-  return 1 + w;
-}
-static int rand_width(uint64_t v) {
-  int min = v < 24 ? 0 : v < 256 ? 1 : v < 65536 ? 2 : v < 4294967296ull ? 4 : 8;
-  static const int ws[] = {0, 1, 2, 4, 8};
-  if (vh_randn(4)) return min; /* mostly shortest */
-  int w;
-  do w = ws[vh_randn(5)]; while (w < min);
-  return w;
-}
-static uint64_t rand_val(void) {
-  static const uint64_t bnd[] = {0, 1, 23, 24, 255, 256, 65535, 65536, 4294967295ull, 4294967296ull, ~0ull};
-  return vh_randn(2) ? bnd[vh_randn(11)] : vh_rand() >> vh_randn(64);
-}
-static size_t gen_item(unsigned char* b, size_t cap, int depth) {
-  if (cap < 64) { b[0] = 0x01; return 1; }
-  int k = (int)vh_randn(depth <= 0 ? 6 : 14);
-  size_t n = 0;
-  switch (k) {
-    case 0: { uint64_t v = rand_val(); return put_head(b, 0, v, rand_width(v)); }
-    case 1: { uint64_t v = rand_val(); return put_head(b, 1, v, rand_width(v)); }
-    case 2: case 3: { /* definite string */
-      size_t l = vh_randn(vh_randn(8) ? 6 : 40);
-      n = put_head(b, k, l, rand_width(l));
-      for (size_t i = 0; i < l; i++) b[n++] = k == 3 && vh_randn(4) ? (unsigned char)('a' + vh_randn(26)) : (unsigned char)vh_rand();
-      return n;
-    }
-    case 4: { static const unsigned char s[] = {0xf4, 0xf5, 0xf6, 0xf7}; b[0] = s[vh_randn(4)]; return 1; }
-    case 5: { int w = 2 << vh_randn(3); b[0] = w == 2 ? 0xf9 : w == 4 ? 0xfa : 0xfb; for (int i = 0; i < w; i++) b[1 + i] = (unsigned char)vh_rand();
-              if (!vh_randn(4)) { b[1] = 0x7f; b[2] |= 0xf0; } return 1 + w; }
-    case 6: case 7: { /* definite array / map */
-      size_t c = vh_randn(4);
-      n = put_head(b, k == 6 ? 4 : 5, c, rand_width(c));
-      for (size_t i = 0; i < c * (k == 6 ? 1 : 2); i++) n += gen_item(b + n, (cap - n) / 2, depth - 1);
-      return n;
-    }
-    case 8: case 9: { /* indefinite array / map */
-      size_t c = vh_randn(4);
-      b[n++] = k == 8 ? 0x9f : 0xbf;
-      for (size_t i = 0; i < c * (k == 8 ? 1 : 2); i++) n += gen_item(b + n, (cap - n) / 2, depth - 1);
-      b[n++] = 0xff;
-      return n;
-    }
-    case 10: case 11: { /* chunked string */
-      size_t c = vh_randn(4);
-      b[n++] = k == 10 ? 0x5f : 0x7f;
-      for (size_t i = 0; i < c; i++) {
-        size_t l = vh_randn(5);
-        n += put_head(b + n, k == 10 ? 2 : 3, l, rand_width(l));
-        for (size_t j = 0; j < l; j++) b[n++] = (unsigned char)('a' + vh_randn(26));
-      }
-      b[n++] = 0xff;
-      return n;
-    }
-    default: { uint64_t v = rand_val(); n = put_head(b, 6, v, rand_width(v)); return n + gen_item(b + n, cap - n, depth - 1); }
-  }
-}
+#define gen_item vg_encoding
 
 static void mutate_and_load(unsigned char* b, size_t n) {
-  static unsigned char m[1 << 16];
+  static unsigned char m[1 << 18];
   static const unsigned char rsv[] = {0x1c, 0x1f, 0x3d, 0x5e, 0x7c, 0x9d, 0xbe, 0xdd, 0xe0, 0xf8, 0xfc, 0xff, 0x5f, 0x7f, 0x9f, 0xbf, 0xc1};
   one_load(b, n);
   int muts = 6;
@@ -523,7 +461,7 @@ static void quiet_load_json(FILE* out, const unsigned char* in, size_t len) {
 }
 
 static void suffix_case(const unsigned char* x, size_t xn, const unsigned char* y, size_t yn) {
-  static unsigned char xy[1 << 16];
+  static unsigned char xy[1 << 18];
   input_index++;
   if (input_index <= opt_skip) return;
   executed++;
@@ -660,7 +598,7 @@ static int real_main(int argc, char** argv) {
 #endif
   cbor_verif_load_hook = opt_lean ? NULL : hook;
   const char* mode = argv[a];
-  static unsigned char buf[1 << 16];
+  static unsigned char buf[1 << 18];
   if (!strcmp(mode, "dfs")) {
     int n = atoi(argv[a + 1]);
     int all = a + 2 < argc && !strcmp(argv[a + 2], "all");
@@ -698,7 +636,7 @@ static int real_main(int argc, char** argv) {
   } else if (!strcmp(mode, "rand")) {
     long count = atol(argv[a + 1]);
     for (long i = 0; i < count; i++) {
-      size_t n = gen_item(buf, 4096, 1 + (int)vh_randn(5));
+      size_t n = gen_item(buf, i % 40 == 7 ? 80000 : 4096, 1 + (int)vh_randn(5));
       mutate_and_load(buf, n);
     }
   } else if (!strcmp(mode, "seq")) {
